@@ -168,6 +168,17 @@ def run_cases(cases) -> dict:
                         t = current[op[1]]
                         t.state = TransferState.init_from_state(op[2], t)
                         t.bytes_transfered += 1
+                elif op[0] == 'touch':
+                    # the transfer was queued again and ended in the same state with other details (no write between)
+                    if op[1] < len(current):
+                        t = current[op[1]]
+                        t.bytes_transfered += 2
+                        t.local_path = (t.local_path or '/dl/x') + '.2'
+                        if t.fail_reason is not None or t.state.VALUE == TransferState.State.FAILED:
+                            t.fail_reason = 'Other reason'
+                        if t.abort_reason is not None:
+                            t.abort_reason = 'Blocked' if t.abort_reason != 'Blocked' else 'Requested'
+                        t.filesize = (t.filesize or 0) + 100
                 elif op[0] == 'write':
                     case.cache.write(current)
                 elif op[0] == 'read':
@@ -241,14 +252,55 @@ def all_cases(tier):
     full = [(i, st.QUEUED, 10, i % 3) for i in range(8)]
     for n in range(0, 9):
         cases.append((f'list:{n}', [('set', full[:n]), ('write',), ('read',), ('load',)]))
+    # a finalised (or any) state written, details changed while the state is the same again, written again
+    for state in STATES:
+        for ident in (2, 3):
+            if IDENTITIES[ident][2] == UL and state in (st.DOWNLOADING, st.INCOMPLETE):
+                continue
+            if IDENTITIES[ident][2] == DL and state == st.UPLOADING:
+                continue
+            spec = (ident, state, 10, 4, '/dl/song.mp3', 'Cancelled' if state == st.FAILED else None,
+                    'Requested' if state == st.ABORTED else None)
+            cases.append((f'touch:{ident}:{state.name}', [('set', [spec, (0, st.QUEUED, 10, 0)]), ('write',), ('touch', 0),
+                                                         ('write',), ('read',), ('touch', 0), ('touch', 1), ('write',), ('read',)]))
     hist_ops = [('mutate', 0, st.DOWNLOADING), ('mutate', 1, st.INITIALIZING), ('remove', 0), ('remove', 2),
-                ('add', (9, st.QUEUED, 3, 0)), ('add', (1, st.PAUSED, 3, 0)), ('write',)]
+                ('add', (9, st.QUEUED, 3, 0)), ('add', (1, st.PAUSED, 3, 0)), ('touch', 2), ('write',)]
     depth = 3 if tier == 'quick' else 4
     for n in range(1, depth + 1):
         for seq in itertools.product(hist_ops, repeat=n):
             cases.append((f'hist:{len(cases)}', [('set', [(0, st.QUEUED, 10, 0), (2, st.QUEUED, 10, 0), (8, st.ABORTED, 1, 0, None, None, 'Requested')]),
                                                   ('write',)] + list(seq) + [('write',), ('read',), ('load',)]))
     return cases
+
+
+def legacy_queued_case(state_name: str) -> dict:
+    """a record in the on-disk format of the pinned version (remotely_queued stored) with the mark set"""
+    viols = []
+    case = Case()
+    try:
+        stt = TransferState.State[state_name]
+        t = make_transfer(IDENTITIES[2], stt, 10, 3)
+        state = t.__getstate__()
+        state['remotely_queued'] = True
+        with shelve.open(os.path.join(case.dir, 'transfers'), flag='c') as db:
+            db.dict[b'legacykey'] = pickle.dumps(_RawState(state))
+        mgr = case.new_manager()
+        run_sync(mgr.load_data())
+        if len(mgr.transfers) != 1:
+            viols.append(Violation('legacy-load', str(mgr.transfers), signature='C17:legacy-load'))
+        elif mgr.transfers[0].remotely_queued:
+            viols.append(Violation('remotely-queued-kept', f"record stored as {state_name} with remotely_queued=True in the "
+                                   f"pinned on-disk format is loaded with the mark still set (state "
+                                   f"{mgr.transfers[0].state.VALUE.name}): scheduling never queues it again",
+                                   signature='C17:remotely-queued-kept:legacy'))
+    except Exception as exc:
+        viols.append(Violation('legacy-raises', repr(exc), signature='C17:legacy-raises'))
+    finally:
+        case.close()
+    return {'executions': 1, 'violations': [{'clause': v.clause, 'detail': v.detail, 'signature': v.signature,
+                                             'choices': [], 'deviations': []} for v in viols],
+            'states': 1, 'transitions': 1, 'outcomes': [f'legacy-queued-{state_name}'], 'capped': False,
+            'samples': [{'case': f'legacy record {state_name} remotely_queued'}]}
 
 
 def legacy_case() -> dict:
@@ -348,6 +400,8 @@ def scenarios(tier: str):
     for i in range(0, len(cases), chunk):
         out.append({'kind': 'cases', 'start': i, 'end': min(len(cases), i + chunk)})
     out.append({'kind': 'legacy'})
+    for s in ('QUEUED', 'INCOMPLETE', 'INITIALIZING', 'DOWNLOADING', 'PAUSED', 'FAILED'):
+        out.append({'kind': 'legacy-queued', 'state': s})
     for s in ('QUEUED', 'INCOMPLETE', 'INITIALIZING', 'DOWNLOADING'):
         out.append({'kind': 'restart', 'state': s})
     return out
@@ -359,6 +413,8 @@ _CASES: dict = {}
 def run_scenario(params: dict, tier: str) -> dict:
     if params['kind'] == 'legacy':
         return legacy_case()
+    if params['kind'] == 'legacy-queued':
+        return legacy_queued_case(params['state'])
     if params['kind'] == 'restart':
         return restart_case(params['state'])
     if tier not in _CASES:
